@@ -2,6 +2,7 @@ package rules
 
 import (
 	"fmt"
+	"os"
 	"runtime/debug"
 	"sync"
 	"go/constant"
@@ -190,10 +191,15 @@ func runEngineAll(r *core.Run) *engResult {
 	defer debug.SetGCPercent(old)
 	var tasks []*engTask
 	for _, sp := range lexSpecs {
+		if only := os.Getenv("PCHECK_ONLY"); only != "" && only != sp.rel {
+			continue
+		}
 		runLexer(sub, sp, &tasks)
 	}
-	runPosition(sub, &tasks)
-	runJSParsePrefix(sub, &tasks)
+	if os.Getenv("PCHECK_ONLY") == "" {
+		runPosition(sub, &tasks)
+		runJSParsePrefix(sub, &tasks)
+	}
 	var wg sync.WaitGroup
 	sem := make(chan struct{}, 14)
 	for _, t := range tasks {
